@@ -609,6 +609,36 @@ func runC18(c *Ctx) {
 			}
 		}
 	}
+	// valid encodings widened: every list-like node of a certificate, request, CRL or PKCS#7 object repeated (with distinct
+	// OIDs) until the encoding is about a megabyte — tens of thousands of extensions, attributes, revoked entries, names
+	for di := range decs {
+		d := &decs[di]
+		switch d.name {
+		case "x509.ParseCertificate", "x509.ParseCertificateRequest", "x509.ParseCRL", "x509.ParseDERCRL", "x509.ParsePKCS7+use", "x509.ber2der", "x509.ParseCertificates":
+			for ci, v := range d.corpus {
+				if ci > 0 && !c.Thorough {
+					break
+				}
+				for wi, m := range derWiden(v, c.Q(1<<20, 3<<20), c.Q(4, 12)) {
+					cases = append(cases, tcase{d, fmt.Sprintf("nesting-flat/valid-encoding-widened/site=%d", wi), m, ci})
+				}
+			}
+		}
+	}
+	// one primitive of 2^24 bytes — the first length that needs four length octets — inside an indefinite-length value and
+	// on its own, through the BER transcoder
+	{
+		big := make([]byte, 0, 1<<24+16)
+		big = append(big, 0x04, 0x84, 0x01, 0x00, 0x00, 0x00)
+		big = append(big, make([]byte, 1<<24)...)
+		wrapped := append(append([]byte{0x30, 0x80}, big...), 0, 0)
+		for di := range decs {
+			d := &decs[di]
+			if d.name == "x509.ber2der" || d.name == "x509.ParsePKCS7+use" {
+				cases = append(cases, tcase{d, "nesting-flat/primitive-of-2^24-bytes", big, -1}, tcase{d, "nesting-flat/primitive-of-2^24-bytes-in-indefinite-sequence", wrapped, -1})
+			}
+		}
+	}
 	rep.Count("cases_generated", int64(len(cases)))
 
 	// ---------- parallel execution with per-call CPU budget and a hang watcher
@@ -736,6 +766,7 @@ func runC18(c *Ctx) {
 		rep.Count("allocation_samples", int64(sampled))
 		rep.Count("phase_ms/allocation-sampling", int64(time.Since(tPhase)/time.Millisecond))
 	}
+	c18Retention(c, decs)
 	rep.Sample(map[string]interface{}{"decoders": len(decs), "example": "x509.ParsePKCS7+use / length-rewrite: a TLV length of the enveloped-data object replaced by 0x84ffffffff"})
 	var names []string
 	for _, d := range decs {
